@@ -23,7 +23,7 @@ RefsAt(mode, i) ==
       [] mode = "all"   -> IF i = 1 THEN {Std, Clash, Versioned, "self"} ELSE {Versioned, Renamed, "self"}
 
 (* kinds that can carry references in their text *)
-CarriesRefs(k) == k \in {"func", "var", "type"}
+CarriesRefs(k) == k \in {"func", "var", "type", "skipref"}
 
 (* the top-level declaration names a fragment contributes, in order *)
 N(p, i) == p \o ToString(i)
@@ -41,8 +41,10 @@ NamesOf(k, noise, i) ==
                   [] k = "octal"     -> <<N("O", i)>>      \* a legacy octal literal (gofumpt spells it 0o... from go 1.13 on)
                   [] k = "rawsplit"  -> <<N("R", i)>>      \* a raw string literal assembled by three Render calls
                   [] k = "retsplit"  -> <<N("Z", i)>>      \* `return` and its operand come from two Render calls
+                  [] k = "skipref"   -> <<N("SK", i)>>     \* rendered by the generator for the package's SECOND type, which then returns ErrSkip:
+                                                           \* what was rendered stays rendered (and what it refers to stays imported)
                   [] k = "oddcomment" -> <<N("L", i)>>     \* a comment in a place where go/printer needs a second pass to settle
-    IN IF noise = "two_on_one" /\ k \notin {"rawsplit", "retsplit"} THEN base \o <<N("X", i)>> ELSE base      \* (the split kinds carry no noise)
+    IN IF noise = "two_on_one" /\ k \notin {"rawsplit", "retsplit", "skipref"} THEN base \o <<N("X", i)>> ELSE base      \* (the split kinds carry no noise)
 
 VARIABLES frags, mode, module
 gvars == <<frags, mode, module>>
@@ -53,8 +55,11 @@ GenNext == /\ Len(frags) < MaxFrags
                 frags' = Append(frags, [kind |-> k, noise |-> n])
            /\ UNCHANGED <<mode, module>>
 
-RECURSIVE ExpNames(_, _)
-ExpNames(fs, i) == IF i > Len(fs) THEN <<>> ELSE NamesOf(fs[i].kind, fs[i].noise, i) \o ExpNames(fs, i + 1)
+RECURSIVE ExpNamesSel(_, _, _)
+ExpNamesSel(fs, i, skip) == IF i > Len(fs) THEN <<>>
+                            ELSE (IF (fs[i].kind = "skipref") = skip THEN NamesOf(fs[i].kind, fs[i].noise, i) ELSE <<>>) \o ExpNamesSel(fs, i + 1, skip)
+(* the first type's declarations in rendering order, then those rendered for the second type *)
+ExpNames(fs, i) == ExpNamesSel(fs, i, FALSE) \o ExpNamesSel(fs, i, TRUE)
 ExpImports(fs, m) == UNION {IF CarriesRefs(fs[i].kind) THEN RefsAt(m, i) \ {"self"} ELSE {} : i \in 1..Len(fs)}
 (* the import block must list exactly the foreign packages the rendered fragments refer to (recorded with each fragment) *)
 ExpImportsOf(fs) == UNION {{fs[i].refs[k] : k \in 1..Len(fs[i].refs)} \ {"self"} : i \in 1..Len(fs)}
